@@ -190,8 +190,25 @@ class _StrMeta(type):
     def __hash__(cls):
         return hash(builtins.str)
 
+    def __getattr__(cls, name):
+        # unbound method call, str.rfind(s, "."): the proxy's own method when s is a proxy, the real one otherwise
+        real = getattr(builtins.str, name)
+
+        def call(self, *a, **k):
+            if getattr(self, "_vf_sym", False):
+                return getattr(self, name)(*a, **k)
+            return real(self, *a, **k)
+
+        return call
+
 
 class StrShim(metaclass=_StrMeta):
+    def __str__(self):
+        # str.__str__(x) is used to turn instances of str subclasses into plain strings: a proxy stays what it is
+        if getattr(self, "_vf_sym", False):
+            return self
+        return builtins.str.__str__(self)
+
     def __new__(cls, x="", *a):
         if isinstance(x, SymBytes) and a:
             return x.decode(*a)
@@ -486,6 +503,8 @@ def rebind(g, kind, first):
     else:
         from . import symre
 
+        if first:
+            g["str"] = StrShim
         table = {"re": (_re, lambda: _single("re", symre.ReShim)), "keyword": (_kw, lambda: _single("keyword", symre.KwShim)), "os": (_os, lambda: _single("os", symre.OsShim))}
     for name, (real, make) in table.items():
         if g.get(name) is real:
